@@ -992,6 +992,22 @@ class Engine:
                 st.env[n] = nv
                 st.assume(*self.type_facts(nv))
 
+    def loop_shape_check(self, head, end, names, lab):
+        """a name the loop body may write keeps, at the head of an arbitrary iteration, the value it had before the loop when that value
+        is a Python constant (None, a str / tuple constant, a function): havoc has nothing to forget.  That is only right if the body
+        leaves it that constant: otherwise the head state misses the other values (declare the local Optional in `locals`)."""
+        for n in names:
+            hv = head.env.get(n)
+            if not isinstance(hv, (str, NoneV, PyConst, Func)):
+                continue
+            ev = end.env.get(n)
+            same = ev is hv or (isinstance(hv, NoneV) and isinstance(ev, NoneV)) or \
+                (isinstance(hv, PyConst) and isinstance(ev, PyConst) and type(hv.value) is type(ev.value) and hv.value == ev.value) or \
+                (isinstance(hv, str) and isinstance(ev, str) and hv == ev)
+            if not same:
+                raise EngineError(f"loop {lab}: `{n}` is the constant {hv!r} before the loop and another value after an iteration: "
+                                  f"declare it in the contract's locals (e.g. OptT(...)) so that the loop head covers both")
+
     def rebound_names(self, stmts):
         out = set()
 
@@ -1132,6 +1148,7 @@ class Engine:
                 e.env[idx] = kvar + 1
                 desc.bind_head(self, s.target, e, kvar + 1)
                 self.loop_frame_check(snap, e, spec, lab)
+                self.loop_shape_check(head, e, mods, lab)
                 self.prove_all(e, spec.inv, f"{lab}/inv_preserved", "inv_preserved", s.lineno)
             elif o.kind == "break":
                 outs_final.append(Outcome("normal", o.st))
@@ -1176,6 +1193,7 @@ class Engine:
                 if o.kind in ("normal", "continue"):
                     e = o.st
                     self.loop_frame_check(snap, e, spec, lab)
+                    self.loop_shape_check(head, e, mods, lab)
                     self.prove_all(e, spec.inv, f"{lab}/inv_preserved", "inv_preserved", s.lineno)
                     if variant0 is not None:
                         v1 = self.spec(spec.variant, e)
@@ -1306,6 +1324,13 @@ class Engine:
         if isinstance(t, ast.Name):
             if self.c.coerce.get(t.id) == "Real" and is_int(v):
                 v = z3.ToReal(v)
+            lt = self.c.locals.get(t.id)
+            if lt is not None and type(lt).__name__ in ("OptT", "OptObjT"):
+                v = self.coerce_arg(lt, v, st)      # a local the contract declares Optional: None and values share one shape
+            if self.c.coerce.get(t.id) == "Real" and isinstance(v, SList) and len(v.elems.cs) == 1 and v.elems.cs[0].sort().range() == I:
+                # a list initialised with int literals that later holds floats ([0] then .append(x - y)): the same numbers, as reals
+                kk, c0 = V.fresh("k", I), v.elems.cs[0]
+                v = SList(v.length, Lifted(V.fresh("e", R), [z3.Lambda([kk], z3.ToReal(c0[kk]))]))
             st.env[t.id] = v
         elif isinstance(t, (ast.Tuple, ast.List)):
             items = self.unpack(v, len(t.elts), st)
